@@ -297,3 +297,55 @@ claim(
     '',
     'scanner progress by ' + PE + ' + regex ambiguity analysis + raise-site agreement + debug effect rule',
 )
+
+
+# ---- addenda: tables over concrete selector texts / the whole API, run by interpretation (sa.e2e) ------------------------------
+# "pipeline table" = the package's own tokenizer, parser and matcher are run by the analyser's evaluator on concrete selector texts
+# and small abstract bs4 trees (the package's regexes applied by the analyser's own matcher over their parse trees); results are
+# compared with each other (metamorphic relations) or with expectations written out from the specification.  These tables are
+# BOUNDED: a failing row is a genuine counterexample (text, tree, result), a clean table is not a proof.
+from .claimapi import PROPS  # noqa: E402
+
+_ADDENDA = {
+    'C01': '(R9, pipeline table) 43 selectors of a pool select, on an HTML reference tree, exactly the elements the Selectors '
+           'specification designates (expectations written out by hand); (R1) the relations table covers a detached fragment, (R3) every '
+           'token kind of the tokenizer has a handler that records or refuses it and reads only groups its pattern defines.',
+    'C02': '(R5, pipeline table) 35 An+B forms x six pseudo-class variants (incl. "of S") through parser and matcher equal the formula; '
+           '(R1) the bounded table includes an element without a parent.',
+    'C03': '(R5, pipeline table) select / iselect / select_one / limit / filter(tag) / filter(iterable) / closest / scoped select agree with '
+           'match() element by element for a pool of selectors on HTML and XML flavours of a reference tree; (R2) closest(), filter() (also '
+           'from the document object) and the descendant walk of select() as tables, and match_selectors leaves the matcher state as it was.',
+    'C04': '(R5, pipeline table) one compiled selector object gives the same answers before and after other queries and equals a fresh '
+           'compile; (R4) match_selectors restores namespaces / iframe_restrict for plain and nested HTML-only lists.',
+    'C05': '(R1) the list-level facts of `a, a<E>` for every simple selector E depend only on the parse flags (two recorded findings: '
+           ':defined and :dir()); (R2) every list of one to three passing / failing / un-matchable alternatives, plain and negated; (R6, '
+           'texts compiled by interpretation) `A, B`, :is(A, B), :where(A, B), :not(A, B) compile to the concatenation of their '
+           'alternatives, for every separator spelling; (R7, pipeline table) union / complement / intersection laws on HTML and XML trees.',
+    'C06': '(R6, texts compiled by interpretation) every sequence of up to two (thorough: three) fragments of a 57-fragment alphabet and '
+           '~110 hand-picked malformed texts and custom maps compile or raise SelectorSyntaxError / NotImplementedError; (R7) no parser-side '
+           'regex is exponentially ambiguous.',
+    'C09': '(R7, texts compiled by interpretation) 23 selector templates with every white-space / comment spelling of every slot, and 39 '
+           'classes of escape / quoting / letter-case respellings (hex escapes at the boundaries of the code space included) compile to '
+           'the structure of the canonical spelling.',
+    'C10': '(R7, texts compiled by interpretation) escape(s) read back as #id, .class, type selector and attribute value is s, for 46 '
+           'hostile characters in seven positions; (R8, pipeline table) the selectors built with escape() select exactly the carriers of '
+           's on HTML (class lists) and XML (class strings) trees.',
+    'C11': '(R5, pipeline table) 26 name / value case variants on four document flavours (html.parser, html5lib-like, XHTML, XML), and '
+           'HTML-only pseudo-classes on XHTML elements embedded in a non-XHTML XML document from every entry point.',
+    'C12': '(R7, pipeline table) type and attribute selectors with prefixes on a tree of mixed namespaces under two prefix maps (34 rows).',
+    'C13': '(R8, pipeline table) :lang() on XHTML (LANG next to lang), XML (xml:lang) and HTML with the content-language pragma.',
+    'C15': '(R5, texts compiled by interpretation) what a pattern compiles to under a custom map does not depend on maps compiled earlier '
+           'in the same process; compile(compiled) returns its argument.',
+    'C17': '(R7, pipeline table) :dir() below dir=auto with invalid dir values, radio groups in nested forms, :default, :placeholder-shown.',
+    'C18': '(R4/R6/R7) which input types parse_value understands, which conversion every regex group goes through and that parsed tuples '
+           'hold numbers of one arity are observed by interpreting parse_value, wherever the code sits.',
+    'C19': '(R6, pipeline table) :-soup-contains / -own / :empty on a tree with split text, comments, CDATA, a processing instruction, an '
+           'iframe and elements without text nodes (empty needle included).',
+    'C20': '(R8, texts compiled by interpretation) the offset of every SelectorSyntaxError raised for ~170 malformed texts and custom '
+           'definitions lies inside the pattern the error shows.',
+}
+for _pid, _txt in _ADDENDA.items():
+    if PROPS.get(_pid, {}).get('claimed'):
+        PROPS[_pid]['text'] = PROPS[_pid]['text'].rstrip() + ' Bounded additions: ' + _txt
+        if 'interpretation' not in PROPS[_pid]['technique']:
+            PROPS[_pid]['technique'] += ' + interpretation of tokenizer/parser/matcher on concrete texts and abstract trees (bounded tables)'
